@@ -1,7 +1,119 @@
 import Driver.Common
-open Drv
+import KatdalModel.Model.Flags
+open Np Drv Flags
 
-/-- stub driver for C16: replaced when the property's model lands -/
-def step (_line : String) : String := "bad-op"
+/-! line protocol of the C16 model driver
 
-def main : IO Unit := Drv.loop step
+  strings   : code points joined by '.', the empty string is `e`            (`99.97.109` = "cam")
+  lists     : strings joined by ',', the empty list is `-`
+  selection : `s:<string>` | `l:<list>`
+  masks     : `1011`, the empty mask is `-`
+
+  mask <lsb|msb> <names> <sel>        -> `<setter result> <documented value>` | `E:Error`
+  list <names> <sel>                  -> selection list
+  keep <lsb|msb> <names> <mask>       -> getter result (list)
+  flagtable <v4|h5> <mask>            -> `<256 x 0/1 by the mirror> <256 x 0/1 by the spec>`
+  raw <stored|_> <0|1> <0|1>          -> raw byte
+  hist <lsb|msb> <names> <nT> <nF> <nB> <call>|<call>...
+        call = r=<_|0|TFB..>;<key>=<mask>;...;f=<sel>;w=<sel>   keys: d t (time) c q (freq) p a o (corrprod)
+     -> per call `T=..;F=..;B=..;m=<flag mask>;w=<weights sel>` joined by `|`, then ` # ` and the same
+        for the history with all flag / weight selections erased (final state only) -/
+
+namespace C16Drv
+
+def parseStr (s : String) : Option Name :=
+  if s = "e" then some [] else (s.splitOn ".").mapM fun t => (t.toNat?).map Char.ofNat
+
+def parseList (s : String) : Option (List Name) :=
+  if s = "-" then some [] else (s.splitOn ",").mapM parseStr
+
+def parseSel (s : String) : Option Selection :=
+  if s.startsWith "s:" then (parseStr (s.drop 2).toString).map Selection.str
+  else if s.startsWith "l:" then (parseList (s.drop 2).toString).map Selection.seq
+  else none
+
+def parseBits (s : String) : Option (List Bool) := if s = "-" then some [] else parseMask s
+
+def showStr (n : Name) : String := if n.isEmpty then "e" else ".".intercalate (n.map fun c => toString c.toNat)
+def showList (l : List Name) : String := if l.isEmpty then "-" else ",".intercalate (l.map showStr)
+def showSel : Selection → String
+  | .str s => "s:" ++ showStr s
+  | .seq l => "l:" ++ showList l
+def showBits (m : List Bool) : String :=
+  if m.isEmpty then "-" else String.ofList (m.map fun b => if b then '1' else '0')
+
+def parseDims (s : String) : Option (List Dim) :=
+  if s = "0" then some [] else s.toList.mapM fun c =>
+    if c = 'T' then some Dim.T else if c = 'F' then some Dim.F else if c = 'B' then some Dim.B else none
+
+def keyOf (s : String) : Option Key :=
+  match s with
+  | "d" => some .dumps | "t" => some .timerange
+  | "c" => some .channels | "q" => some .freqrange
+  | "p" => some .corrprods | "a" => some .ants | "o" => some .pol
+  | _ => none
+
+def parseCall (s : String) : Option Call :=
+  (s.splitOn ";").foldlM (fun (c : Call) item =>
+    match item.splitOn "=" with
+    | ["r", v] => if v = "_" then some c else (parseDims v).map fun d => { c with reset := some d }
+    | ["f", v] => (parseSel v).map fun x => { c with flags := some x }
+    | ["w", v] => (parseSel v).map fun x => { c with weights := some x }
+    | [k, v] => do
+      let key ← keyOf k
+      let m ← parseBits v
+      pure { c with crits := c.crits ++ [(key, m)] }
+    | _ => none) ⟨none, [], none, none⟩
+
+def showSt (s : St) : String :=
+  s!"T={showBits s.tKeep};F={showBits s.fKeep};B={showBits s.bKeep};m={s.flagsSelect};w={showSel s.weightsKeep}"
+
+def states (f : Fmt) : St → List Call → List St
+  | _, [] => []
+  | s, c :: t => let s' := step f s c; s' :: states f s' t
+
+def step (line : String) : String :=
+  match line.splitOn " " with
+  | ["mask", ord, names, sel] =>
+    match parseList names, parseSel sel with
+    | some names, some sel =>
+      let chosen := selectionToList names sel
+      if ord = "lsb" then
+        showExcept (fun m => s!"{m} {specMaskLSB names chosen}") (flagMaskLSB names sel)
+      else
+        showExcept (fun m => s!"{m} {specMaskMSB names chosen}") (flagMaskMSB names sel)
+    | _, _ => "bad-op"
+  | ["list", names, sel] =>
+    match parseList names, parseSel sel with
+    | some names, some sel => showList (selectionToList names sel)
+    | _, _ => "bad-op"
+  | ["keep", ord, names, m] =>
+    match parseList names, m.toNat? with
+    | some names, some m => showList (keepNames (ord = "lsb") names m)
+    | _, _ => "bad-op"
+  | ["flagtable", kind, m] =>
+    match m.toNat? with
+    | some m =>
+      let f := if kind = "v4" then flagOfV4 m else flagOf m
+      let bits (g : Nat → Bool) := String.ofList ((List.range 256).map fun r => if g r then '1' else '0')
+      s!"{bits f} {bits (specFlag m)}"
+    | none => "bad-op"
+  | ["raw", st, lost, pp] =>
+    match (if st = "_" then some none else (st.toNat?).map some) with
+    | some st => toString (rawV4 st (lost = "1") (pp = "1"))
+    | none => "bad-op"
+  | ["hist", ord, names, nT, nF, nB, calls] =>
+    match parseList names, nT.toNat?, nF.toNat?, nB.toNat?,
+          (if calls = "-" then some [] else (calls.splitOn "|").mapM parseCall) with
+    | some names, some nT, some nF, some nB, some calls =>
+      let f : Fmt := ⟨names, ord = "lsb"⟩
+      let s0 := init f nT nF nB
+      let sts := states f s0 calls
+      let e := run f s0 (eraseFW calls)
+      "|".intercalate (sts.map showSt) ++ " # " ++ showSt e
+    | _, _, _, _, _ => "bad-op"
+  | _ => "bad-op"
+
+end C16Drv
+
+def main : IO Unit := Drv.loop C16Drv.step
